@@ -9,6 +9,7 @@ from harness import execute, OracleFail, Skip
 from checks import common as cm
 
 ID = 'C03'
+HASHSEED_EVERY = {'quick': 1000, 'thorough': 5000}     # one case in so many is also run under other string-hash seeds (harness._run_hashseed_invariant)
 BUDGET = {'quick': 20000, 'thorough': 1000000}
 WALL = {'quick': 100, 'thorough': 1500}
 CHUNK = 50
